@@ -84,6 +84,7 @@ class Session:
                  strict_close=True, timeout=60):
         self.cfg = config or {}
         self.rng = random.Random(seed)
+        self.seed = seed
         self.sim = Sim(binary, args=args, fill_byte=fill_byte, timeout=timeout)
         self.conns = {}
         self.by_fd = {}
@@ -95,6 +96,7 @@ class Session:
         self.creds = creds
         self.now = 1000000000
         self.idc = 0
+        self.per_conn_ids = False
         self.valc = 0
         self.default_timeout = float(self.cfg.get("CONFIG_ROUTED_MESSAGES_TIMEOUT", 5.0))
         eo = int(self.cfg.get("CONFIG_ELEMENT_TABLE_ORDER", 13))
@@ -124,7 +126,8 @@ class Session:
 
     # ------------------------------------------------------------------
     def v(self, key, detail=""):
-        if self.desync and key.split("/")[0] in ("ns", "replica", "route"):
+        if self.desync and key.split("/")[0] in ("ns", "replica", "route") and not (self.alloc_faults and key == "replica/notification-for-unknown-fetch"):
+            # (a notification that names a fetch its receiver never asked for is wrong whatever was lost to a failed allocation)
             self.stats["suppressed_after_desync"] += 1
             return
         self.viol.append((self.key_prefix + key, str(detail)[:600]))
@@ -133,6 +136,10 @@ class Session:
         self.sigs.add(parts)
 
     def next_id(self, conn):
+        if self.per_conn_ids and conn is not None:
+            # every connection numbers its requests itself, as real clients do: equal ids on different connections
+            conn.idc += 1
+            return conn.idc
         self.idc += 1
         return self.idc
 
@@ -1104,6 +1111,8 @@ METHODS = ("add", "remove", "change", "set", "call", "fetch", "unfetch", "get", 
 
 # defaults for attributes set lazily
 Conn.closing = False
+Conn.idc = 0
+Conn.fidc = 0
 Conn.keep_log = False
 Conn.wire_done = False
 Conn.torn_reported = False
